@@ -149,7 +149,6 @@ def subsOf : Nat → Bytes → Option (List (UInt8 × Bytes))
   | fuel+1, t :: lb :: tail =>
     if lb.toNat < 2 || tail.length < lb.toNat - 2 then none
     else (subsOf fuel (tail.drop (lb.toNat - 2))).map fun r => (t, tail.take (lb.toNat - 2)) :: r
-  | _, _ => none
 
 /-- the value of the TTL attribute of a packet (C13), if it has one -/
 def ttlOf (tt : Nat × Nat) (attrs : List (UInt8 × Bytes)) : Option Bytes :=
